@@ -291,6 +291,10 @@ def run_batch(pid: str, tier: str, base_seed: int, workers: int | None = None,
     n_enum = len(cases)
     cases += [dict(cfg.get("params", {})) for _ in range(cfg["runs"])]
     indexed = list(enumerate(cases))
+    if n_enum and cfg["runs"] and getattr(mod, "INTERLEAVE_CASES", True):
+        # enumerated families and seeded random runs advance at the same relative rate, so that a budget that ends early
+        # cuts both proportionally (the index, hence the seed, of every case is unchanged)
+        indexed.sort(key=lambda ic: (ic[0] / n_enum) if ic[0] < n_enum else ((ic[0] - n_enum) / cfg["runs"]))
     chunk = max(1, min(cfg.get("chunk", 64), (len(indexed) + workers * 4 - 1) // (workers * 4)))
     chunks = [indexed[i:i + chunk] for i in range(0, len(indexed), chunk)]
     total = {
